@@ -238,3 +238,8 @@ BOUNDS = {
 OUTSIDE = ["streams of 50..2000 items: the same constant bound is claimed only up to L (symbolically) and L=200 (pre-flight)", "cycle, lagging tee children, sorted and the collection builders accumulate by design"]
 NONTRIVIAL_RULE = ">=6 source items produced on the path"
 ASSUMPTIONS = ["object lifetimes are CPython reference counting plus gc.collect(); CrossHair's weakref model collects before dereferencing"]
+
+MANIFEST = {
+    "text": 'Weak references to source items are counted (after gc.collect()) at every pull for symbolic stream lengths; the count must stay below a per-tool constant plus the documented window; tee for every progress pattern with early close. Nothing is claimed outside the bounds listed in the evidence file.',
+    "note": 'Trusted: CrossHair 0.0.110 (with short-circuiting off and a refined callable() model), z3 5.1.0, the harness oracles. Constant bound shown up to L<=12/24 symbolically and L=200 natively, not for 50..2000; one open known finding (tee child closed before ever advanced).',
+}
